@@ -626,7 +626,9 @@ def run(ctx):
                 "non-trivial = at least one emission / successful conversion / drawn rate, distinct by qualitative shape")
     u, s, drift = setup(ctx)
     if drift and ctx.quick:
-        ctx.pick = lambda quick, thorough: thorough   # noqa: E731  (DESIGN 2.3 step 1)
+        # DESIGN 2.3 step 1: deeper correspondence when the modelled code changed (bounded so that the
+        # quick tier stays a quick tier)
+        ctx.pick = lambda quick, thorough: min(thorough, 3 * quick)   # noqa: E731
     core.lean_stage(ctx, MODULE, FILE, drivers=["drv_gen"])
     from harness.adapters import gen as G
     M = Model(ctx)
